@@ -26,13 +26,45 @@ def Action.ofNotif (nid : Nat) : Action → Bool
   | .nrun k | .nwrite k _ => k == nid
   | _ => false
 
+@[simp] theorem ofCall_sret (i j : Nat) (o : Outcome) : (Action.sret j o).ofCall i = (j == i) := rfl
+@[simp] theorem ofCall_loopSel (i j : Nat) (b : LoopBr) : (Action.loopSel j b).ofCall i = (j == i) := rfl
+@[simp] theorem ofCall_waitSel (i j : Nat) (b : WaitBr) : (Action.waitSel j b).ofCall i = (j == i) := rfl
+@[simp] theorem ofCall_dret (i j : Nat) (o : Outcome) : (Action.dret j o).ofCall i = (j == i) := rfl
+@[simp] theorem ofCall_gpass (i j : Nat) : (Action.gpass j).ofCall i = (j == i) := rfl
+@[simp] theorem ofNotif_nrun (k n : Nat) : (Action.nrun n).ofNotif k = (n == k) := rfl
+@[simp] theorem ofNotif_nwrite (k n : Nat) (o : Outcome) : (Action.nwrite n o).ofNotif k = (n == k) := rfl
+
 def Action.isAdvance : Action → Bool
   | .advance _ => true
   | _ => false
 
-macro "rank_close" : tactic =>
-  `(tactic| (simp [setCall, setNotif, finish, Call.finish, removeAck, Call.exitLoop, Call.retC, newCall, Call.rank, Notif.rank,
-      Action.ofCall, Action.ofNotif, Action.isAdvance] <;> grind [Call.rank, Notif.rank]))
+macro "rank_close" hg:term : tactic =>
+  `(tactic| (simp [setCall, setNotif, finish, Call.finish, removeAck, exitAck, Call.exitLoop, Call.retC, newCall, Call.rank, Notif.rank,
+      Action.ofCall, Action.ofNotif, Action.isAdvance, Cfg.std_all $hg] <;> grind [Call.rank, Notif.rank]))
+
+/-- `NotifyAcks` changes no program point and no timer: ranks are unchanged. -/
+theorem ack_rank {cfg : Cfg} (ids : List Nat) (s : State) :
+    (stepAck cfg s ids).notifs = s.notifs ∧
+    ∀ i, ((stepAck cfg s ids).calls i).map Call.rank = (s.calls i).map Call.rank := by
+  refine stepAck_induct cfg
+    (P := fun t => t.notifs = s.notifs ∧ ∀ i, (t.calls i).map Call.rank = (s.calls i).map Call.rank) ?_ ids s ⟨rfl, fun _ => rfl⟩
+  intro t id ⟨hn, hr⟩
+  unfold ackOne
+  by_cases hk : t.ack id = true
+  · simp only [hk, if_true]
+    cases hci : t.calls id with
+    | none => exact ⟨hn, hr⟩
+    | some ci =>
+      by_cases ha : ci.acked = true
+      · simp [ha, hn, hr]
+      · simp only [ha, Bool.false_eq_true, if_false]
+        refine ⟨by split <;> simp [setCall, removeAck, hn], fun i => ?_⟩
+        have := hr i
+        by_cases hid : i = id
+        · subst hid; rw [hci] at this
+          split <;> simp [setCall, removeAck, ← this, Call.rank]
+        · split <;> simp [setCall, removeAck, hid, this]
+  · simp only [hk]; exact ⟨hn, hr⟩
 
 /-- One step: the call's rank does not grow unless the clock travels, and it shrinks when the step is the call's own;
 a notifier's rank does not grow, and it shrinks when the step is the notifier's own. -/
@@ -43,37 +75,41 @@ def RankStep (s s' : State) (a : Action) : Prop :=
     n'.rank ≤ n.rank ∧ (a.ofNotif k = true → n'.rank < n.rank))
 
 set_option maxHeartbeats 8000000 in
-theorem rank_step {cfg : Cfg} {s s' : State} {a : Action} (hs : step cfg s a = some s') : RankStep s s' a := by
+theorem rank_step {cfg : Cfg} {s s' : State} {a : Action} (hg : cfg.std = true) (hs : step cfg s a = some s') :
+    RankStep s s' a := by
   unfold RankStep
   cases a <;> simp only [step] at hs
   case start j q b =>
     unfold stepStart at hs
     split at hs
     · simp at hs
-    · dsimp only at hs
-      split at hs <;> simp at hs <;> subst hs <;> rank_close
+    · try dsimp only at hs
+      split at hs <;> simp at hs <;> subst hs <;> rank_close hg
   case sret j o =>
     unfold stepSret at hs
+    std_norm hg at hs
     split at hs
     · simp at hs
     · split at hs <;> try (simp at hs)
       all_goals (try split at hs) <;> try (simp at hs)
       all_goals (first | subst hs | (obtain ⟨_, hs⟩ := hs; subst hs))
-      all_goals rank_close
+      all_goals rank_close hg
   case loopSel j b =>
     unfold stepLoop at hs
+    std_norm hg at hs
     split at hs
     · simp at hs
     · split at hs
       · simp at hs
-      · dsimp only at hs
+      · try dsimp only at hs
         split at hs
         all_goals (split at hs <;> try (simp at hs))
         all_goals (try (split at hs <;> try (simp at hs)))
         all_goals (first | subst hs | (obtain ⟨_, hs⟩ := hs; subst hs))
-        all_goals rank_close
+        all_goals rank_close hg
   case waitSel j b =>
     unfold stepWait at hs
+    std_norm hg at hs
     split at hs
     · simp at hs
     · split at hs
@@ -82,39 +118,41 @@ theorem rank_step {cfg : Cfg} {s s' : State} {a : Action} (hs : step cfg s a = s
         all_goals (split at hs <;> try (simp at hs))
         all_goals (try (split at hs <;> try (simp at hs)))
         all_goals (first | subst hs | (obtain ⟨_, hs⟩ := hs; subst hs))
-        all_goals rank_close
+        all_goals rank_close hg
   case dret j o =>
     unfold stepDret at hs
+    std_norm hg at hs
     split at hs
     · simp at hs
     · split at hs <;> simp at hs
       subst hs
-      rank_close
+      rank_close hg
   case gpass j =>
     unfold stepGpass at hs
+    std_norm hg at hs
     split at hs
     · simp at hs
     · split at hs <;> simp at hs
       subst hs
-      rank_close
+      rank_close hg
   case nstart nid t e v =>
     unfold stepNstart at hs
     split at hs
     · simp at hs
-    · dsimp only at hs
-      split at hs <;> simp at hs <;> subst hs <;> rank_close
+    · try dsimp only at hs
+      split at hs <;> simp at hs <;> subst hs <;> rank_close hg
   case nrun nid =>
     unfold stepNrun at hs
     split at hs
     · simp at hs
     · split at hs
-      · simp at hs; subst hs; rank_close
+      · simp at hs; subst hs; rank_close hg
       · split at hs
         · simp at hs
-        · split at hs <;> simp at hs <;> subst hs <;> rank_close
+        · split at hs <;> simp at hs <;> subst hs <;> rank_close hg
       · split at hs
         · simp at hs
-        · split at hs <;> simp at hs <;> subst hs <;> rank_close
+        · split at hs <;> simp at hs <;> subst hs <;> rank_close hg
       · simp at hs
   case nwrite nid o =>
     unfold stepNwrite at hs
@@ -123,24 +161,29 @@ theorem rank_step {cfg : Cfg} {s s' : State} {a : Action} (hs : step cfg s a = s
     · split at hs
       · split at hs
         · simp at hs
-        · simp at hs; subst hs; rank_close
+        · simp at hs; subst hs; rank_close hg
       · simp at hs
   case ack ids =>
     cases hs
-    simp [stepAck, Action.isAdvance, Action.ofCall, Action.ofNotif, Call.rank]
-    grind [Call.rank]
+    obtain ⟨hn, hr⟩ := ack_rank (cfg := cfg) ids s
+    simp only [Action.isAdvance, Action.ofCall, Action.ofNotif, hn]
+    refine ⟨fun i c c' hc hc' => ?_, fun k n n' h1 h2 => ?_⟩
+    · have := hr i; rw [hc, hc'] at this; simp only [Option.map_some, Option.some.injEq] at this
+      simp [this]
+    · rw [h1] at h2; cases h2; simp
   case cancel j =>
     unfold stepCancel at hs
     split at hs
     · simp at hs
     · split at hs <;> simp at hs <;> subst hs
-      · rank_close
+      · rank_close hg
       · simp [Action.isAdvance, Action.ofCall, Action.ofNotif]; grind
   case advance d =>
     cases hs
     simp [stepAdvance, Action.isAdvance, Action.ofCall, Action.ofNotif]
     grind
-  case close => cases hs; simp [Action.isAdvance, Action.ofCall, Action.ofNotif]; grind
-  case fclose => cases hs; simp [Action.isAdvance, Action.ofCall, Action.ofNotif]; grind
+  case close k => split at hs <;> simp at hs; subst hs; simp [Action.isAdvance, Action.ofCall, Action.ofNotif]; grind
+  case fclose k => split at hs <;> simp at hs; subst hs; simp [Action.isAdvance, Action.ofCall, Action.ofNotif]; grind
+  case cret k => split at hs <;> simp at hs; subst hs; simp [Action.isAdvance, Action.ofCall, Action.ofNotif]; grind
 
 end TdModel.Rpc
